@@ -368,6 +368,12 @@ def _nleaves(body, op):
     return tuple(sorted({_nleaf(x) for x in leaves(body, op)}, key=repr))
 
 
+def sig_abs(sig):
+    """a signature with parameter positions and the field path below a parameter forgotten: adding `&self`, or wrapping two
+    parameters into one struct, renumbers / re-roots them without changing what the site computes from"""
+    return re.sub(r"\('(\w)', 'param', '\d+', \([^()]*\)\)", r"('\1', 'param', '*', ())", sig)
+
+
 def site_sig(body, s):
     """dataflow signature of a panic site: the origins (parameters, fields, calls, constants, lengths) of its operands.
     Hoisting a sub-expression into a `let`, renaming, or turning a tuple into a struct leaves it unchanged."""
@@ -444,6 +450,29 @@ def strict_order_guard(body, variant):
                 if m in ORDER_CALLS and ("PartialOrd" in r.what or "cmp::" in r.what):
                     strict = (m in ("ge", "le") and err_truth is True) or (m in ("lt", "gt") and err_truth is False)
                     found.append((sw, m, err_truth, strict, r.obj.get("ln") if r.obj else None))
+                elif m in ("map_or", "is_some_and", "is_none_or") and "option::Option" in r.what and r.obj is not None and _FACTS[0] is not None:
+                    # `prev.map_or(false, |p| p >= key)`: the comparison sits in the closure; with no previous element the
+                    # default decides, which must be the accepting value
+                    args = r.obj.get("args", [])
+                    default = None
+                    if m == "map_or" and len(args) >= 2 and args[1].get("k") == "const":
+                        default = args[1].get("int") not in (None, "0")
+                    elif m == "is_some_and":
+                        default = False
+                    elif m == "is_none_or":
+                        default = True
+                    for a in args[1:]:
+                        for rr in trace(body, a):
+                            if rr.kind == "agg" and rr.obj is not None and rr.obj.get("ak") == "closure":
+                                cb = _FACTS[0].bodies.get(rr.obj.get("name"))
+                                if cb is None:
+                                    continue
+                                for x in trace(cb, {"l": 0}):
+                                    if x.kind == "call":
+                                        m2 = x.what.rsplit("::", 1)[-1]
+                                        if m2 in ORDER_CALLS and ("PartialOrd" in x.what or "cmp::" in x.what):
+                                            strict = default is not None and default != err_truth and ((m2 in ("ge", "le") and err_truth is True) or (m2 in ("lt", "gt") and err_truth is False))
+                                            found.append((sw, m2, err_truth, strict, x.obj.get("ln") if x.obj else None))
             if r.kind == "binop" and r.obj is not None and r.obj.get("op") in ("Ge", "Le", "Gt", "Lt"):
                 m = r.obj["op"].lower()
                 strict = (m in ("ge", "le") and err_truth is True) or (m in ("lt", "gt") and err_truth is False)
@@ -452,6 +481,38 @@ def strict_order_guard(body, variant):
 
 
 SIGS_FILE = __import__("os").path.join(__import__("os").path.dirname(__import__("os").path.abspath(__file__)), "panic_site_sigs.json")
+
+
+KNOWN_FNS_FILE = __import__("os").path.join(__import__("os").path.dirname(__import__("os").path.abspath(__file__)), "panic_known_fns.json")
+
+
+def load_known_fns():
+    import json, os
+
+    if not os.path.exists(KNOWN_FNS_FILE):
+        return None
+    with open(KNOWN_FNS_FILE) as fh:
+        return set(json.load(fh))
+
+
+def with_new_helpers_inlined(facts):
+    """functions of nomt_core reachable from the verifier entry points that the reviewed tree did not have (new helpers a
+    refactoring extracted) are spliced into their callers, so that their panic sites and loops are judged where the
+    guards are (rules/inline.py).  Returns (facts2, {caller: [inlined helpers]})."""
+    import inline
+
+    known = load_known_fns()
+    if known is None:
+        return facts, {}
+    reach = reachable_set(facts)
+    # a helper that returns a Result raises errors of its own: its guards are error-returning guards in ITS body and it is
+    # judged as a function of its own (its call in the verifier is found by the rules that look for guards in helpers)
+    new = {fn for fn in reach if norm_fn(fn) not in {norm_fn(k) for k in known} and fn not in ENTRY and facts.bodies[fn].kind != "Closure" and not facts.bodies[fn].derived and not facts.bodies[fn].local_ty(0).startswith("core::result::Result<")}
+    if not new:
+        return facts, {}
+    callers = {fn for fn in reach if any((t.get("callee") or "") in new for _b, t in facts.bodies[fn].calls())}
+    # a new helper calling another new helper: the inner one is inlined into the outer first by the transitive rounds
+    return inline.inline_into(facts, callers - new or callers, lambda h: h.id in new)
 
 
 def load_sigs():
@@ -489,12 +550,15 @@ def run(facts, rep, cfg="default"):
         msig = {id(s): site_sig(facts.bodies[s["fn"]], s) for s in members}
         free_keys = list(listed)
         assign = {}
-        for s in members:
-            hits = [k for k in free_keys if sigs0[k] == msig[id(s)]]
-            if len(hits) >= 1 and not msig[id(s)].startswith(("error", "other")):
-                # several listed sites may share a signature: keep source order among equals
-                assign[id(s)] = hits[0]
-                free_keys.remove(hits[0])
+        for norm in (lambda x: x, sig_abs):
+            for s in members:
+                if id(s) in assign:
+                    continue
+                hits = [k for k in free_keys if norm(sigs0[k]) == norm(msig[id(s)])]
+                if len(hits) >= 1 and not msig[id(s)].startswith(("error", "other")):
+                    # several listed sites may share a signature: keep source order among equals
+                    assign[id(s)] = hits[0]
+                    free_keys.remove(hits[0])
         rest = [s for s in members if id(s) not in assign]
         unused = sorted(set(k for k in disp if k.rsplit("|#", 1)[0] == gbase) - set(assign.values()), key=lambda k: int(k.rsplit("#", 1)[1]))
         for s, k in zip(rest, unused):
@@ -508,6 +572,22 @@ def run(facts, rep, cfg="default"):
     def base_of(k):
         parts = k.split("|")
         return "|".join(parts[1:-1])
+
+    def loose(base):
+        """the expression with `self` treated like any other name (a free function turned into a method)"""
+        kind, _sep, expr = base.partition("|")
+        names = {}
+
+        def sub(m):
+            w = m.group(0)
+            if w != "self" and not w.startswith("$"):
+                return w
+            if w not in names:
+                names[w] = "$%d" % (len(names) + 1)
+            return names[w]
+
+        return kind + "|" + re.sub(r"\$\d+|\bself\b", sub, expr)
+
     spare = {}
     for k in disp:
         if k not in exact:
@@ -518,6 +598,15 @@ def run(facts, rep, cfg="default"):
             cands = spare.get(base_of(s["key"]), [])
             if cands:
                 moved[s["key"]] = cands.pop(0)
+    spare_loose = {}
+    for ks in spare.values():
+        for k in ks:
+            spare_loose.setdefault(loose(base_of(k)), []).append(k)
+    for s in inv:
+        if s["key"] not in disp and s["key"] not in moved:
+            cands = [k for k in spare_loose.get(loose(base_of(s["key"])), []) if k not in moved.values()]
+            if cands:
+                moved[s["key"]] = cands[0]
     # ... or may have been RE-SPELLED (a sub-expression hoisted into a `let`, a field turned into a local): it is matched with
     # a listed site of the same function family whose recorded dataflow signature (rules/panic_site_sigs.json, generated from
     # the tree the table was reviewed on) equals the signature computed now.
@@ -533,6 +622,16 @@ def run(facts, rep, cfg="default"):
             cands = by_sig.get((s["key"].split("|")[1], sg), [])
             if cands and not sg.startswith(("error", "other")):
                 moved[s["key"]] = cands.pop(0)
+    by_abs = {}
+    for (kk, sg), ks in by_sig.items():
+        for k in ks:
+            by_abs.setdefault((kk, sig_abs(sg)), []).append(k)
+    for s in inv:
+        if s["key"] not in disp and s["key"] not in moved:
+            sg = site_sig(facts.bodies[s["fn"]], s)
+            cands = [k for k in by_abs.get((s["key"].split("|")[1], sig_abs(sg)), []) if k not in moved.values()]
+            if len(cands) >= 1 and not sg.startswith(("error", "other")):
+                moved[s["key"]] = cands[0]
     rep.extra["moved_sites"] = [{"site": k, "listed_as": v} for k, v in sorted(moved.items())][:40]
     for s in inv:
         key = s["key"]
